@@ -43,7 +43,7 @@ def read_layers(run):
 def meta_layers(run):
     """Tar shapes for the metadata half (entry types, name spellings, implicit parents, hard-link chains, duplicate names, xattrs)."""
     k = run.seed
-    s1 = [ent(["a"], "dir", uid=1, gid=2, mtime=1111, xattrs=[["user.k", "v%d" % k]]),
+    s1 = [ent(["a"], "dir", mode=0o2755, uid=1, gid=2, mtime=1111, xattrs=[["user.k", "v%d" % k]]),
           ent(["a", "f"], "reg", file=1, size=3, mode=0o4644, style="dot"),
           ent(["a", "s"], "symlink", target="../x/y" + "z" * (k % 3), mode=0o777),
           ent(["h"], "hardlink", link=["a", "f"], linkstyle="slash"),
